@@ -54,7 +54,38 @@ def j1(out, eng, pr):
             return ok(ty, Int(z3.Extract(31, 0, x.e), 32))
         return err(ty, Obj("TryFromIntError"))
 
-    extra = [(r"^SymbolicValue::<\(\)>::constant_fold$", constant_fold), (r"^KnownWord::value_le$", value_le)]
+    # what an instruction entry encodes to, as far as a comparison with the single byte 0x5b can tell: only JUMPDEST encodes
+    # to exactly [0x5b] among the assigned opcodes; an Invalid entry re-encodes whatever byte it stands for (possibly 0x5b:
+    # the bytes of a PUSH cut short by the end of the code are Invalid entries)
+    INVB = z3.Function("byte_of_invalid_entry_at", z3.BitVecSort(64), z3.BitVecSort(8))
+    OTHB = z3.Function("first_byte_of_entry_at", z3.BitVecSort(64), z3.BitVecSort(8))
+    OTHL = z3.Function("encoded_length_of_entry_at", z3.BitVecSort(64), z3.BitVecSort(64))
+
+    def encode(ctx, a, ty, c):
+        from mirsmt.containers import _op_of
+        op = _op_of(ctx, a[0])
+        at = op.at if z3.is_bv(op.at) else z3.BitVecVal(int(op.at), 64)
+        tag = op.tag if not isinstance(op.tag, int) else z3.BitVecVal(op.tag, 16)
+        is_jd = tag == z3.BitVecVal(op_tag("JumpDest"), 16)
+        is_inv = tag == z3.BitVecVal(op_tag("Invalid"), 16)
+        b = z3.If(is_jd, z3.BitVecVal(0x5b, 8), z3.If(is_inv, INVB(at), OTHB(at)))
+        ln = z3.If(z3.Or(is_jd, is_inv), z3.BitVecVal(1, 64), OTHL(at))
+        ctx.assume(z3.Implies(z3.Not(z3.Or(is_jd, is_inv)), z3.Not(z3.And(OTHL(at) == 1, OTHB(at) == 0x5b))))
+        return Obj("bytes", "Vec<u8>", name="encoded", arr=z3.Store(z3.K(z3.BitVecSort(64), z3.BitVecVal(0, 8)), z3.BitVecVal(0, 64), b), len=ln)
+
+    def vec_eq_array(ctx, a, ty, c):
+        from mirsmt.summaries import load
+        v = load(ctx, a[0]) if isinstance(a[0], Ref) else a[0]
+        arr = load(ctx, a[1]) if isinstance(a[1], Ref) else a[1]
+        if not (isinstance(v, Obj) and v.kind == "bytes" and isinstance(arr, Agg)):
+            return NotImplemented
+        elems = [ctx.force(arr.fields[i]).e for i in sorted(arr.fields)]
+        cs = [v.len == z3.BitVecVal(len(elems), 64)] + [z3.Select(v.arr, z3.BitVecVal(i, 64)) == e for i, e in enumerate(elems)]
+        from mirsmt.interp import Bool
+        return Bool(z3.And(cs))
+
+    extra = [(r"^SymbolicValue::<\(\)>::constant_fold$", constant_fold), (r"^KnownWord::value_le$", value_le),
+             (r"^<dyn Opcode as Opcode>::encode$", encode), (r"^<Vec<u8> as PartialEq<\[u8; \d+\]>>::(eq|ne)$", vec_eq_array)]
     ex = eng.explorer(extra=extra)
 
     def body(ctx):
@@ -88,7 +119,10 @@ def j1(out, eng, pr):
         r, cell, ctx = p.ret
         known = [e[1] for e in ctx.events if e[0] == "known_value"][0]
         full = ev(model, known)
-        return native.scenario(out, "jump_target_bits", {"target_hex": "%064x" % full})
+        confirmed, rep = native.scenario(out, "jump_target_bits", {"target_hex": "%064x" % full})
+        if not confirmed:
+            confirmed, rep = native.scenario(out, "jump_into_truncated_push", {})
+        return confirmed, rep
     verdict(out, pr, "J1.validate_jump_destination", paths, post, replay=replay, key="jump-target-truncated-to-32-bits",
             what="a jump target is accepted only when the full 256-bit constant is the offset of a JUMPDEST inside the code")
     # every rejecting path returns one of the jump-validation errors, located at the current instruction pointer
